@@ -84,9 +84,9 @@ fn gen_ctx(rng: &mut Rng, p: &Pools, coords_ok: bool) -> Ctx {
     }
     match rng.below(if coords_ok { 10 } else { 8 }) {
         0 | 1 | 2 => Ctx::Default,
-        3 | 4 => Ctx::Holidays(rng.pick(&p.countries).clone()),
+        3 | 4 => Ctx::Holidays(p.pick_country(rng)),
         5 | 6 => Ctx::Tz(rng.pick(&p.zones).to_string()),
-        7 => Ctx::TzHolidays(rng.pick(&p.zones).to_string(), rng.pick(&p.countries).clone()),
+        7 => Ctx::TzHolidays(rng.pick(&p.zones).to_string(), p.pick_country(rng)),
         _ => {
             let c = rng.pick(&p.sun_coords);
             Ctx::Coords(c.0, c.1)
@@ -135,9 +135,9 @@ fn gen_op(rng: &mut Rng, p: &Pools, coords_ok: bool, n_prebuilt: u32) -> Op {
                         let co = rng.pick(&p.sun_coords);
                         Ctx::TzCoords(z.clone(), co.0, co.1)
                     }
-                    (Ctx::Holidays(_), 0 | 1) => Ctx::Holidays(rng.pick(&p.countries).clone()),
+                    (Ctx::Holidays(_), 0 | 1) => Ctx::Holidays(p.pick_country(rng)),
                     (Ctx::Tz(_), 0) => Ctx::Tz(rng.pick(&p.zones).to_string()),
-                    (Ctx::TzHolidays(z, _), 0 | 1) => Ctx::TzHolidays(z.clone(), rng.pick(&p.countries).clone()),
+                    (Ctx::TzHolidays(z, _), 0 | 1) => Ctx::TzHolidays(z.clone(), p.pick_country(rng)),
                     _ => gen_ctx(rng, p, false),
                 };
                 Op::Recontext { e, c1: c, c2, t }
@@ -146,7 +146,7 @@ fn gen_op(rng: &mut Rng, p: &Pools, coords_ok: bool, n_prebuilt: u32) -> Op {
         12 if n_prebuilt > 0 => Op::Shared { i: rng.below(n_prebuilt as u64) as u32, t },
         13 if n_prebuilt > 0 => Op::SharedIter { i: rng.below(n_prebuilt as u64) as u32, t, n: rng.range(1, 12) as u32 },
         12 | 13 => Op::State { e, c, t },
-        14 | 15 => Op::Holidays(rng.pick(&p.countries).clone()),
+        14 | 15 => Op::Holidays(p.pick_country(rng)),
         16 => {
             let (cc, date, school) = p.pick_holiday_probe(rng);
             Op::HolidayOn { cc, date, school }
@@ -193,7 +193,7 @@ pub fn generate(rng: &mut Rng, p: &Pools, mode: &str) -> Workload {
         .collect();
     let mut threads: Vec<Vec<Op>> = Vec::new();
     // c10 mode: a small set of "hot" countries so that several threads race on the same first use
-    let hot: Vec<String> = (0..rng.range(1, 3)).map(|_| rng.pick(&p.countries).clone()).collect();
+    let hot: Vec<String> = (0..rng.range(1, 3)).map(|_| p.pick_country(rng)).collect();
     // c10 mode, one run in eight: all 115 countries are forced, in a seeded order, split over the threads
     let sweep = c10 && rng.chance(1, 8);
     if sweep {
@@ -214,7 +214,7 @@ pub fn generate(rng: &mut Rng, p: &Pools, mode: &str) -> Workload {
                     0 | 1 | 2 => rng.pick(&hot).clone(),
                     3 => p.countries[0].clone(),
                     4 => p.countries[p.countries.len() - 1].clone(),
-                    _ => rng.pick(&p.countries).clone(),
+                    _ => p.pick_country(rng),
                 };
                 ops.push(match rng.below(5) {
                     0 | 1 => Op::Holidays(cc),
